@@ -689,7 +689,8 @@ pub fn run_sharded(scratch: &Path, scenario: &str, seed: u64, tier: Tier, indice
 // minimisation
 
 pub fn minimise(scratch: &Path, scen: &dyn Scenario, scenario: &str, plan: &Plan, target: &Violation, known: &BTreeSet<String>) -> (Plan, u32) {
-    let mut budget: i32 = 400;
+    // every candidate that still hangs costs a full watchdog period: a hang is shrunk with a dozen attempts, not 400
+    let mut budget: i32 = if target.class == "timeout" { 12 } else { 400 };
     let mut tries = 0u32;
     let mut cur = plan.clone();
     let mut fails = |cand: &Plan, budget: &mut i32, tries: &mut u32| -> bool {
